@@ -28,6 +28,7 @@ func init() {
 	c19Run = runC19
 	extraCmds["c19replay"] = c19Replay
 	extraCmds["c19alone"] = c19Alone
+	extraCmds["c19cold"] = c19Cold
 }
 
 // c19Alone executes ONE call of a scenario as the only call of a fresh process and prints its observation.
@@ -46,6 +47,56 @@ func c19Alone(args []string) {
 			return
 		}
 	}
+}
+
+// c19Cold executes ONE schedule of a scenario (thread `first` starts, no further preemption) as the
+// first thing a fresh process does: state that the library initialises or grows lazily on first use
+// (caches, tables, pools) is then still cold, which it never is again in the explorer's own process.
+func c19Cold(args []string) {
+	var first int
+	fmt.Sscan(args[1], &first)
+	installC19Hooks()
+	for _, sc := range c19Scenarios() {
+		if sc.name == args[0] {
+			poolMisuse = 0
+			bodies, finish := sc.threads(sc.setup())
+			var prefix []int
+			if first > 0 {
+				prefix = []int{first}
+			}
+			x := runSchedule(bodies, prefix)
+			out := map[string]any{"obs": finish(), "races": x.races, "deadlock": x.deadlock, "pool": poolMisuse, "points": x.npoints}
+			b, _ := json.Marshal(out)
+			os.NewFile(3, "res").Write(b)
+			return
+		}
+	}
+}
+
+type coldResult struct {
+	Obs      []string `json:"obs"`
+	Races    []string `json:"races"`
+	Deadlock string   `json:"deadlock"`
+	Pool     int      `json:"pool"`
+	Points   int      `json:"points"`
+}
+
+func coldExecution(scName string, first int) (coldResult, bool) {
+	var out coldResult
+	pr, pw, err := os.Pipe()
+	if err != nil {
+		return out, false
+	}
+	cmd := exec.Command(os.Args[0], "c19cold", scName, fmt.Sprint(first))
+	cmd.ExtraFiles = []*os.File{pw}
+	if cmd.Start() != nil {
+		return out, false
+	}
+	pw.Close()
+	ok := json.NewDecoder(pr).Decode(&out) == nil
+	pr.Close()
+	cmd.Wait()
+	return out, ok
 }
 
 func aloneObservation(scName string, idx int) (string, bool) {
@@ -416,6 +467,8 @@ const (
 		"set p to pattern at least 1 'a' begin set k to 2 * 2 return matchLength < k - 1 end\nreplace all p with lim '.'\nfind all p 'b'"
 )
 
+const srcNestedLoops = "find all at least 1 (at least 1 (maybe 'a' at least 0 'b') 'c' at most 2 'd')"
+
 var srcLongReads = "find all whole file\nfind all '" + strings.Repeat("c", 70) + "' any"
 
 func c19Scenarios() []scenario {
@@ -498,6 +551,8 @@ func c19Scenarios() []scenario {
 					return []string{obs[0], obs[1]}
 				}
 		}},
+		// a program with nested loops: its loop ids are drawn one by one while another Compile is under way
+		compileOnly("S12 Compile(nested loops) || Compile(loops) || Compile(no loop)", srcNestedLoops, "find all at least 1 'a' maybe 'b'", "find all 'a'"),
 		compileOnly("S1 Compile(groups) || Compile(groups)", srcGroupsA, srcGroupsB),
 		compileOnly("S2 Compile(groups) || Compile(no groups)", srcGroupsB, srcPlain),
 		compileOnly("S6 Compile || Compile || Compile", srcGroupsA, srcGroupsB, srcGroupsA),
@@ -613,6 +668,43 @@ func exploreScenario(c *Ctx, sc scenario, bound int) {
 	for i := range bodies {
 		if o, ok := aloneObservation(sc.name, i); ok {
 			want[i] = o
+		}
+	}
+	// cold executions: each thread order once, each in a fresh process
+	if bound == 0 {
+		for first := range bodies {
+			cr, ok := coldExecution(sc.name, first)
+			if !ok {
+				c.Note(fmt.Sprintf("%s: the cold execution (thread %d first) gave no result", sc.name, first))
+				continue
+			}
+			c.Eval(1)
+			c.Count("cold_process_executions", 1)
+			c.Count("sched_points", int64(cr.Points))
+			problem := ""
+			switch {
+			case cr.Pool > 0:
+				problem = "POOL-MISUSE an object was put into a sync.Pool that already held it"
+			case cr.Deadlock != "":
+				problem = "DEADLOCK " + cr.Deadlock
+			case len(cr.Races) > 0:
+				problem = "RACE " + cr.Races[0]
+			default:
+				for i := range cr.Obs {
+					if i < len(want) && cr.Obs[i] != want[i] {
+						problem = fmt.Sprintf("RESULT call %d returns %.300q, alone it returns %.300q", i, cr.Obs[i], want[i])
+						break
+					}
+				}
+			}
+			if problem != "" {
+				cls := strings.Fields(problem)[0]
+				if cls == "RACE" {
+					cls = "RACE " + strings.SplitN(cr.Races[0], ":", 2)[0]
+				}
+				c.Violation(cls+" cold | "+sc.name, fmt.Sprintf("%s, first execution of a fresh process, thread %d first, no preemption: %s", sc.name, first, problem),
+					map[string]any{"kind": "cold-schedule", "scenario": sc.name, "first": first, "problem": problem, "races": cr.Races})
+			}
 		}
 	}
 	cap := 400000
